@@ -11,6 +11,10 @@ C05 — helper lemmas (umbrella): see Proofs/C05/*.lean
   RV.lean        the range_vector ring refines a list
   Stride.lean    index form: the regenerated count expressions / guards per Index type are exact
   StrideIdx.lean index form: the regenerated body-wrapper index arithmetic is exact
+  StaticBound.lean        static_partitioner: one chunk per task, at most `initial divisor` tasks
+  Term.lean, Term2.lean   termination with explicit fuel for all four partitioners on blocked_range
+  EachBase/Acc/Shape/Live/Wait/Once/Top/End/Blocks/Life/Ord/OrdA/OrdM/OrdL.lean   parallel_for_each / parallel_invoke task system: reference
+                 accounting, the wait covers everything, exactly once, every call ended, blocks and iterator
 -/
 import TbbVerif.Proofs.C05.Task
 import TbbVerif.Proofs.C05.Range1
@@ -18,6 +22,10 @@ import TbbVerif.Proofs.C05.RangeN
 import TbbVerif.Proofs.C05.Simple
 import TbbVerif.Proofs.C05.RV
 import TbbVerif.Proofs.C05.StrideIdx
+import TbbVerif.Proofs.C05.Term2
+import TbbVerif.Proofs.C05.StaticBound
+import TbbVerif.Proofs.C05.EachOrdL
+import TbbVerif.Proofs.C05.EachPfor
 
 namespace TbbVerif.C05
 
